@@ -9,7 +9,7 @@ import (
 
 // C02 — distilled text is an ordered excerpt of the source.
 
-var c02Alphabet = []string{"Pc", "Ps", "Pb", "H", "UL1", "UL3", "OL2", "ULn", "BQ", "PRE", "TBLd", "TBLl", "IMG", "FIG", "FIGl", "FIGe",
+var c02Alphabet = []string{"Pc", "Ps", "Pb", "H", "UL1", "UL3", "OL2", "ULn", "BQ", "PRE", "TBLd", "TBLl", "IMG", "FIG", "FIGl", "FIGe", "FIGch", "FIGcs", "FIGns",
 	"INL", "JS1", "JS2", "BR", "HID", "HIDs", "NOS", "PIC", "DIVt", "VID", "YT", "TXT", "TBLh", "LItbl", "SIDE"}
 
 func c02Enumerate(tier string, emit func(*eng.Case)) {
@@ -83,7 +83,7 @@ func init() {
 	eng.Register(&eng.Prop{
 		ID:        "C02",
 		DesignRef: "§5 C02",
-		Rule: "docspace BFS: skeletons S1 (article), S2 (article between link-cluster chrome) with <= 2 (quick) / <= 3 (thorough) insertions of one of 31 block atoms (including bare text next to tables, tables with hidden/comment-only cells, a table inside a list item, a sidebar-classed link cluster) at every child position of body and of the article container, plus S3 (>= 520-word article) with one edit fewer; with and without page URL; " +
+		Rule: "docspace BFS: skeletons S1 (article), S2 (article between link-cluster chrome) with <= 2 (quick) / <= 3 (thorough) insertions of one of 34 block atoms (figures whose caption ends in a hidden element or a style element, a caption-less figure ending in a script, including bare text next to tables, tables with hidden/comment-only cells, a table inside a list item, a sidebar-classed link cluster) at every child position of body and of the article container, plus S3 (>= 520-word article) with one edit fewer; with and without page URL; " +
 			"every word is a unique token." + crossRule + " (there, only words that occur once in the visible source are judged). Oracle: words of Text and of the visible text of result.Node are a duplicate-free subsequence of the visible source words. Non-trivial = >= 20 words kept and >= 1 visible source word dropped.",
 		Enumerate: c02Enumerate,
 		Check:     c02Check,
